@@ -242,21 +242,44 @@ func TestPropRandom(t *testing.T) {
 // TypingCase: a template that fills href on <a> / action on <form> from an expression of the
 // given Go type, in one of several attribute positions.
 type TypingCase struct {
-	Element  string `json:"element"`  // a | form
-	Position string `json:"position"` // plain, cond-then, cond-else, multiline, after-spread, nested
+	Element  string `json:"element"`   // a | form
+	Position string `json:"position"`  // plain, cond-then, cond-else, multiline, after-spread, nested
 	ExprType string `json:"expr_type"` // string | safeurl | url-call | string-const | stringer
+	// Spelling of the attribute name: HTML attribute names are ASCII case-insensitive, so HREF,
+	// Href and hReF all name the href attribute to a browser. "" = lower case.
+	Spelling string `json:"spelling,omitempty"`
+}
+
+// spell applies the case pattern: lower, upper, title, or alternating.
+func spell(name, how string) string {
+	switch how {
+	case "upper":
+		return strings.ToUpper(name)
+	case "title":
+		return strings.ToUpper(name[:1]) + name[1:]
+	case "alternating":
+		b := []byte(name)
+		for i := range b {
+			if i%2 == 1 {
+				b[i] = strings.ToUpper(string(b[i]))[0]
+			}
+		}
+		return string(b)
+	}
+	return name
 }
 
 var recTy = ev.New("C04", "c04.typing",
 	"templates with href={e} on <a> / action={e} on <form> in generated attribute positions (plain, inside conditional-attribute then/else, multi-line, next to a spread, nested elements): "+
 		"the generated Go must be rejected by go/types when e is a plain string (variable, call result, named string type) and accepted when e is templ.SafeURL / templ.URL(s). "+
-		"Non-trivial = e is not of type SafeURL; distinct by (element, position, expression kind)")
+		"The attribute name is written in four case patterns (href, HREF, Href, hReF: one attribute to a browser). Non-trivial = e is not of type SafeURL; distinct by (element, position, expression kind, spelling)")
 
 func (c TypingCase) source() string {
 	attr := "href"
 	if c.Element == "form" {
 		attr = "action"
 	}
+	attr = spell(attr, c.Spelling)
 	var expr string
 	switch c.ExprType {
 	case "string":
@@ -333,15 +356,17 @@ func TestPropTyping(t *testing.T) {
 	for _, el := range []string{"a", "form"} {
 		for _, pos := range []string{"plain", "with-others", "cond-then", "cond-else", "multiline", "after-spread", "nested", "in-loop"} {
 			for _, et := range []string{"string", "string-call", "named-string", "string-concat", "safeurl", "url-call", "safeurl-var"} {
-				c := TypingCase{Element: el, Position: pos, ExprType: et}
-				n++
-				recTy.Eval(1)
-				recTy.Class(et)
-				if !c.safe() {
-					recTy.NonTrivial(fmt.Sprint(c), func() any { return map[string]any{"case": c, "source": c.source()} })
-				}
-				if err := decideTyping(c); err != nil {
-					recTy.Fail(t, c, "%v", err)
+				for _, sp := range []string{"", "upper", "title", "alternating"} {
+					c := TypingCase{Element: el, Position: pos, ExprType: et, Spelling: sp}
+					n++
+					recTy.Eval(1)
+					recTy.Class(et)
+					if !c.safe() {
+						recTy.NonTrivial(fmt.Sprint(c), func() any { return map[string]any{"case": c, "source": c.source()} })
+					}
+					if err := decideTyping(c); err != nil {
+						recTy.Fail(t, c, "%v", err)
+					}
 				}
 			}
 		}
